@@ -78,6 +78,9 @@ namespace c13
   /// the symmetric positive definite 2x2 block of the blocked operator A (x) B
   inline double blockB(int a, int b) { static const double B[2][2] = {{2.0, 0.5}, {0.5, 1.0}}; return B[a][b]; }
 
+  /// the 2x3 block of the rectangular-block operator A (x) R (row space blocked<2>, column space blocked<3>)
+  inline double blockR(int a, int b) { static const double R[2][3] = {{1.0, 0.5, -0.25}, {0.25, 2.0, 0.5}}; return R[a][b]; }
+
   // -------------------------------------------------------------------------------------------------
   // position-coded exact data
   // -------------------------------------------------------------------------------------------------
@@ -147,10 +150,11 @@ namespace c13
     std::vector<int> assign;     // base cell -> rank
     int space = 0;
     int bs = 1;
+    int renum = 0;               // local renumbering of every patch mesh: 0 none, 1 reversed, 2 rotated by rank+1, 3 FEAT's random strategy
     std::string str() const
     {
       std::string a; for(int x : assign) a += char('0' + x);
-      return vm::spec_str(mesh) + " refine=" + std::to_string(refine) + " P=" + std::to_string(P) + " cell->rank=" + a + " space=" + space_name(space) + " kind=" + (bs == 1 ? "scalar" : "blocked2");
+      return vm::spec_str(mesh) + " refine=" + std::to_string(refine) + " P=" + std::to_string(P) + " cell->rank=" + a + " space=" + space_name(space) + " kind=" + (bs == 1 ? "scalar" : "blocked2") + " patch-numbering=" + (renum == 0 ? "natural" : renum == 1 ? "reversed" : renum == 2 ? "rotated" : "random");
     }
   };
 
@@ -223,6 +227,8 @@ namespace c13
       int halos = 0, empty_mirrors = 0;
       std::vector<Index> p2b;          // patch dof -> base dof
       Mat A0;                          // type-0 matrix of the patch
+      LAFEM::SparseMatrixBCSR<double, Index, 2, 3> A0r;   // rectangular-block type-0 matrix (blocked kind only)
+      int nonasc = 0;                  // mirrors whose index array is not ascending
       Filt filt;
       Index ndofs = 0;
     };
@@ -235,7 +241,8 @@ namespace c13
     std::string error;               // harness-level problem while building (reported as a failure)
 
     // ---------------------------------------------------------------------------------------------
-    static void fill_matrix(Mat& M, const SpaceType& space, const std::vector<Index>& to_base, const std::vector<Index>& cell_to_base_cell, int nloc)
+    template<typename MatT_, typename BlockFn_>
+    static void fill_matrix_t(MatT_& M, int bh, int bw, BlockFn_ blockfn, const SpaceType& space, const std::vector<Index>& to_base, const std::vector<Index>& cell_to_base_cell, int nloc)
     {
       Assembly::SymbolicAssembler::assemble_matrix_std1(M, space);
       M.format(0.0);
@@ -253,10 +260,35 @@ namespace c13
           const double e = val_E(cell_to_base_cell[size_t(c)], to_base[size_t(i)], to_base[size_t(j)], nloc);
           Index pos = rp[i]; while(pos < rp[i + 1] && ci[pos] != j) ++pos;
           if(pos >= rp[i + 1]) XABORTM("c13: symbolic pattern lacks a cell coupling");
-          for(int p = 0; p < bs; ++p) for(int q = 0; q < bs; ++q) va[size_t(pos) * size_t(bs * bs) + size_t(p * bs + q)] += e * (bs == 1 ? 1.0 : blockB(p, q));
+          for(int p = 0; p < bh; ++p) for(int q = 0; q < bw; ++q) va[size_t(pos) * size_t(bh * bw) + size_t(p * bw + q)] += e * blockfn(p, q);
         }
         dm.finish();
       }
+    }
+    static void fill_matrix(Mat& M, const SpaceType& space, const std::vector<Index>& to_base, const std::vector<Index>& cell_to_base_cell, int nloc)
+    {
+      fill_matrix_t(M, bs, bs, [](int p, int q) { return bs == 1 ? 1.0 : blockB(p, q); }, space, to_base, cell_to_base_cell, nloc);
+    }
+
+    /// local renumbering of a patch mesh (all entity dimensions) through the mesh permutation facility of FEAT; halos and
+    /// mesh parts follow (RootMeshNode::set_permutation), so the halo ORDER stays consistent between neighbours while the
+    /// indices -- and with them the mirror index arrays -- are no longer ascending
+    static void renumber(NodeType& node, int renum, int rank)
+    {
+      if(renum == 0) return;
+      if(renum == 3) { node.create_permutation(Geometry::PermutationStrategy::random); return; }
+      typedef Geometry::MeshPermutation<typename MeshType::ShapeType> MP;
+      MP mp;
+      auto& pa = mp.create_other();
+      for(int d = 0; d <= dim; ++d)
+      {
+        const Index n = node.get_mesh()->get_num_entities(d);
+        std::vector<Index> v(static_cast<size_t>(n));
+        for(Index k = 0; k < n; ++k) v[size_t(k)] = (renum == 1) ? (n - 1 - k) : ((k + Index(rank + 1)) % n);
+        pa[size_t(d)] = Adjacency::Permutation(n, Adjacency::Permutation::ConstrType::perm, v.data());
+        mp._inv_perms[size_t(d)] = pa[size_t(d)].inverse();
+      }
+      node.set_permutation(std::move(mp));
     }
 
     static void fill_filter(Filt& f, Index ndofs, const std::vector<Index>& to_base)
@@ -283,6 +315,7 @@ namespace c13
         std::vector<int> comm;
         R->lvl.node = mybase->extract_patch(comm, graph, r);
         for(int l = 0; l < cfg.refine; ++l) R->lvl.node = R->lvl.node->refine_unique(Geometry::AdaptMode::none);
+        renumber(*R->lvl.node, cfg.renum, r);
         ranks.push_back(std::move(R));
       }
       for(int l = 0; l < cfg.refine; ++l) base.node = base.node->refine_unique(Geometry::AdaptMode::none);
@@ -345,10 +378,12 @@ namespace c13
           Mirror m;
           Assembly::MirrorAssembler::assemble_mirror(m, *R.lvl.space, *h.second);
           if(m.empty()) { ++R.empty_mirrors; continue; }
+          { const Index* mi = m.indices(); bool asc = true; for(Index q = 1; q < m.num_indices(); ++q) if(mi[q] < mi[q - 1]) asc = false; if(!asc) ++R.nonasc; }
           R.nb.push_back(h.first);
           R.mirrors.push_back(std::move(m));
         }
         fill_matrix(R.A0, *R.lvl.space, R.p2b, cell2base, B.nloc);
+        if constexpr(BS_ == 2) fill_matrix_t(R.A0r, 2, 3, [](int p, int q) { return blockR(p, q); }, *R.lvl.space, R.p2b, cell2base, B.nloc);
         fill_filter(R.filt, R.ndofs, R.p2b);
       }
       for(Index i = 0; i < B.N; ++i)
